@@ -170,7 +170,13 @@ func c20Build(sym, deep bool, maxShape int, varyMeta bool) *c20World {
 			}
 		}
 		w.posts = append(w.posts, ps)
-		txt := inc + "2024-01-0" + zzverif.Itoa(i+1) + " " + payee + " ; " + tag + "\n"
+		// the last file of the tree declares display formats with fewer decimals than the amounts
+		// carry: the hover figures stay exact all the same
+		decl := ""
+		if i == w.n-1 && !varyMeta {
+			decl = "commodity 1,000.00 USD\ncommodity 1.000,0 EUR\n\n"
+		}
+		txt := inc + decl + "2024-01-0" + zzverif.Itoa(i+1) + " " + payee + " ; " + tag + "\n"
 		// the amount-less balancing posting comes last, or (in the file with the extra posting)
 		// first: postings with amounts then FOLLOW a posting without one
 		zFirst := !varyMeta && i == w.extraFile && zzverif.Choice("zfirst", 2) == 1
@@ -239,6 +245,13 @@ func (w *c20World) expect(scope []int) c20Expect {
 
 // c20Serve starts a server on the world and opens file req; returns the server and the document URI.
 func (w *c20World) serve(req int, workspace bool, secondRun bool) (*Server, protocol.DocumentURI) {
+	return w.serveMode(req, workspace, secondRun, false)
+}
+
+// serveMode, otherClosed: another file of the tree is opened with one more (unsaved)
+// transaction on the hovered account, the account is hovered from req, and the other file is
+// closed again without saving: the tree is what the disk holds.
+func (w *c20World) serveMode(req int, workspace bool, secondRun bool, otherClosed bool) (*Server, protocol.DocumentURI) {
 	ctx := context.Background()
 	for i := 0; i < w.n; i++ {
 		zzverif.WriteFile(w.paths[i], w.contents[i])
@@ -257,6 +270,18 @@ func (w *c20World) serve(req int, workspace bool, secondRun bool) (*Server, prot
 			_ = s.DidOpen(ctx, &protocol.DidOpenTextDocumentParams{TextDocument: protocol.TextDocumentItem{URI: uri, Text: w.contents[req]}})
 		})
 		c20Settle(s, uri, w.contents[req])
+		if otherClosed && w.n > 1 {
+			other := (req + 1) % w.n
+			ouri := protocol.DocumentURI("file://" + w.paths[other])
+			otext := w.contents[other] + "\n2024-01-01 warm\n    a:b  77 USD\n    c:d\n"
+			zzNotify(s, func() {
+				_ = s.DidOpen(ctx, &protocol.DidOpenTextDocumentParams{TextDocument: protocol.TextDocumentItem{URI: ouri, Text: otext}})
+			})
+			c20Settle(s, ouri, otext)
+			_, _ = s.Hover(ctx, &protocol.HoverParams{TextDocumentPositionParams: protocol.TextDocumentPositionParams{
+				TextDocument: protocol.TextDocumentIdentifier{URI: uri}, Position: protocol.Position{Line: c20AcctLine(w.contents[req]), Character: 5}}})
+			_ = s.DidClose(ctx, &protocol.DidCloseTextDocumentParams{TextDocument: protocol.TextDocumentIdentifier{URI: ouri}})
+		}
 		return s, uri
 	}
 	// second run: the document is first open with one more transaction on the hovered account,
@@ -354,8 +379,12 @@ func verifC20Hover(deep bool) {
 		req = zzverif.Choice("req", 2)
 	}
 	workspace := zzverif.Choice("workspace", 2) == 1
-	second := zzverif.Choice("second", 2) == 1
-	s, uri := w.serve(req, workspace, second)
+	// 0 plain; 1 the document itself had another text and was hovered before; 2 (workspace, more
+	// than one file) another file of the tree had unsaved text, was hovered over and closed unsaved
+	mode := zzverif.Choice("second", 3)
+	zzverif.Assume(mode != 2 || (workspace && w.n > 1))
+	second := mode == 1
+	s, uri := w.serveMode(req, workspace, second, mode == 2)
 	// cursor on the first posting's account of the requesting file
 	line := c20AcctLine(w.contents[req])
 	h, err := s.Hover(context.Background(), &protocol.HoverParams{TextDocumentPositionParams: protocol.TextDocumentPositionParams{
